@@ -190,21 +190,22 @@ func c10(r *hx.Run) {
 					for _, res := range results {
 						r.Eval(1)
 						r.Add("requests", 1)
+						if k.tainted && res.Label != "fetching" {
+							// pike was handed a record that still decodes but was altered (the harness decoded it
+							// itself): whatever comes of it - other bytes, another status code, even a status code
+							// net/http refuses to send - is the known class; the key must recover once the record
+							// has expired, which the following bursts judge
+							if res.Err != nil || res.Status != 200 || !res.HasIdent || !res.Ident.Intact || res.Ident.URI != k.uri {
+								r.Violate("undetectable_corruption_served", map[string]string{"class": "undetectable-corruption"}, fmt.Sprintf("a record altered without becoming malformed was taken over (no integrity field): status %d err %v", res.Status, res.Err), res.Brief(), cs)
+							}
+							continue
+						}
 						if res.Err != nil || res.Status != 200 {
 							r.Violate("client_error_after_store_fault", map[string]string{"fault": lf.kind, "status": fmt.Sprint(res.Status)},
 								fmt.Sprintf("status %d (err %v) although the upstream is healthy; last store read of the key returned %q (decodable=%v)", res.Status, res.Err, lf.kind, lf.decodable), res.Brief(), cs)
 							return
 						}
-						if k.tainted {
-							if res.Label == "fetching" {
-								k.tainted = false
-							} else {
-								if !res.HasIdent || !res.Ident.Intact || res.Ident.URI != k.uri {
-									r.Violate("undetectable_corruption_served", map[string]string{"class": "undetectable-corruption"}, "a record altered without becoming malformed was served (no integrity field)", res.Brief(), cs)
-								}
-								continue
-							}
-						}
+						k.tainted = false
 						if !res.HasIdent || !res.Ident.Intact || res.Ident.URI != k.uri {
 							r.Violate("wrong_or_damaged_body_after_store_fault", map[string]string{"fault": lf.kind}, "the response is not the intact body of this key", res.Brief(), cs)
 							return
